@@ -101,6 +101,23 @@ theorem linv_step (s : LState) (h : LInv s) (op : LOp) : LInv (s.step op) := by
           · intro he; cases he
       · exact h.touched
     · exact h
+  | failOpen i =>
+    simp only [LState.step]
+    split
+    · rename_i hp
+      have hi : s.holder = some i := (h.liveIff i).mp (by rw [hp]; rfl)
+      constructor
+      · intro j
+        simp only [setPhase_phase, setPhase_holder, dropLock_phase, dropLock_holder, hi, if_true]
+        by_cases hj : j = i
+        · subst hj; simp [LPhase.live]
+        · simp only [hj, if_false]
+          constructor
+          · intro hl; have := (h.liveIff j).mp hl; rw [hi] at this
+            exact absurd (Option.some.inj this).symm hj
+          · intro he; cases he
+      · exact h.touched
+    · exact h
   | crash i =>
     simp only [LState.step]
     constructor
